@@ -187,7 +187,7 @@ pub fn run(ctx: &Ctx) -> i32 {
 
     // programs that use none of the four mnemonics assemble to the same image under both flags
     let mut corpus: Vec<Program> = e1_single_statements(false).into_iter().filter(|c| !c.stack && !c.space.starts_with("E1/fill")).map(|c| c.prog).collect();
-    for n in 1..=ctx.tier.pick(3, 4) {
+    for n in 1..=ctx.tier.pick(3, 5) {
         corpus.extend(e2_single_reference(n).into_iter().filter(|c| !c.stack).map(|c| c.prog));
     }
     corpus.extend((0..=0xFFFFu32).step_by(ctx.tier.pick(64, 8)).map(|w| Program::of(vec![Stmt::Fill(Lit::hex(w as u16))])));
